@@ -261,6 +261,9 @@ func runCase(c *Case, sum *vh.Summary, cw *vh.CaseWriter, verbose bool) caseInfo
 		info.Hist = append(info.Hist, "split:several-trailing-filters")
 	}
 
+	if !c.Target.InModelClass() {
+		return info // union with trailing filters: compared with the whole-document selection only
+	}
 	// ---- the Coq case: same tokens, same target, observed deliveries ----
 	fin := "ObsEOF"
 	if res.Fin != "EOF" {
@@ -282,7 +285,7 @@ func runCase(c *Case, sum *vh.Summary, cw *vh.CaseWriter, verbose bool) caseInfo
 			info.Hist = append(info.Hist, "not-wellformed")
 			return info
 		}
-		term = fmt.Sprintf("XCase (mkXCase %s %s %s %s %s %s %s)", sx.XDocCoq(doc), sx.XToksCoq(toks), c.Target.Coq(),
+		term = fmt.Sprintf("XCase (mkXCase %s %s %s %s %s %s %s %s)", sx.XDocCoq(doc), sx.XToksCoq(toks), c.Target.Coq(), c.Target.AltsCoq(),
 			vh.CoqHex([]byte(xp)), vh.CoqList(rel), vh.CoqList(ds), fin)
 	} else {
 		toks, ok := sx.JSONTokens(c.Text)
@@ -293,7 +296,7 @@ func runCase(c *Case, sum *vh.Summary, cw *vh.CaseWriter, verbose bool) caseInfo
 		}
 		var sb strings.Builder
 		doc.Coq(&sb)
-		term = fmt.Sprintf("JCase (mkJCase (%s) %s %s %s %s %s %s)", sb.String(), sx.JToksCoq(toks), c.Target.Coq(),
+		term = fmt.Sprintf("JCase (mkJCase (%s) %s %s %s %s %s %s %s)", sb.String(), sx.JToksCoq(toks), c.Target.Coq(), c.Target.AltsCoq(),
 			vh.CoqHex([]byte(xp)), vh.CoqList(rel), vh.CoqList(ds), fin)
 	}
 	cw.Add(term, c)
